@@ -730,6 +730,10 @@ func runC14(tier string, seed uint64, o *Out) error {
 	if err := runC14M(tier, rng, o); err != nil {
 		return err
 	}
+	// third family: PARTITION BY paths into nested rows (c14n.go)
+	if err := runC14N(tier, rng, o); err != nil {
+		return err
+	}
 	// key lines last: the driver reports only the first 200 bad lines, and the query lines are the ones the
 	// declarative checker can turn into a concrete failing input
 	c14Keys(rng, o, nk)
